@@ -718,21 +718,15 @@ End LoadFolds.
 Lemma in_seq_1024 j : j < 1024 -> In (N.to_nat j) (seq 0 1024).
 Proof. intros H. apply in_seq. lia. Qed.
 
-Theorem load_correct s m : R s m ->
-  exists s', load (img s) = LOk s' /\ R s' m /\ img s' = img s /\
-    (forall j, j < 1024 -> getN (offs s') j = getN (offs s) j /\ getN (tss s') j = getN (tss s) j).
+(* the state Load builds from tables that agree with the in-memory ones *)
+Lemma R_reload s m o t : R s m ->
+  (forall j, j < 1024 -> getN o j = getN (offs s) j) ->
+  (forall j, j < 1024 -> getN t j = getN (tss s) j) ->
+  R {| offs := o; tss := t; used := load_used o; hwm := load_hwm o; img := img s |} m.
 Proof.
-  intros HR. pose proof (R_log s m HR) as Hlog. pose proof (R_size s m HR) as Hsz.
-  unfold load. assert ((fsize (img s) <? 8192) = false) as -> by lia.
-  eexists. split; [reflexivity|].
-  set (o := load_tab (img s) 0).
-  assert (Ho : forall j, j < 1024 -> getN o j = getN (offs s) j).
-  { intros j Hj. unfold o. rewrite load_tab_spec by assumption. rewrite N.add_0_l. apply (R_hdr s m HR j Hj). }
-  assert (Ht : forall j, j < 1024 -> getN (load_tab (img s) 4096) j = getN (tss s) j).
-  { intros j Hj. rewrite load_tab_spec by assumption. apply (R_ts s m HR j Hj). }
+  intros HR Ho Ht. pose proof (R_log s m HR) as Hlog. pose proof (R_size s m HR) as Hsz.
   assert (Hoi : forall i, In i (seq 0 1024) -> getN o (N.of_nat i) = getN (offs s) (N.of_nat i)).
   { intros i Hi. apply in_seq in Hi. apply Ho. lia. }
-  split; [|split; [reflexivity|intros j Hj; cbn [offs tss]; auto]].
   constructor; cbn [img offs tss used hwm].
   - exact Hlog.
   - exact Hsz.
@@ -771,4 +765,19 @@ Proof.
         pose proof (R_hwlim s m HR). lia.
       * exfalso. apply Hnz. apply (R_absent s m HR (N.of_nat i) ltac:(lia) Em).
     + unfold sector_limit. change (2^23) with 8388608. lia.
+Qed.
+
+Theorem load_correct s m : R s m ->
+  exists s', load (img s) = LOk s' /\ R s' m /\ img s' = img s /\
+    (forall j, j < 1024 -> getN (offs s') j = getN (offs s) j /\ getN (tss s') j = getN (tss s) j).
+Proof.
+  intros HR. pose proof (R_log s m HR) as Hlog. pose proof (R_size s m HR) as Hsz.
+  assert (Ho : forall j, j < 1024 -> getN (load_tab (img s) 0) j = getN (offs s) j).
+  { intros j Hj. rewrite load_tab_spec by assumption. rewrite N.add_0_l. apply (R_hdr s m HR j Hj). }
+  assert (Ht : forall j, j < 1024 -> getN (load_tab (img s) 4096) j = getN (tss s) j).
+  { intros j Hj. rewrite load_tab_spec by assumption. apply (R_ts s m HR j Hj). }
+  unfold load. assert ((fsize (img s) <? 8192) = false) as -> by lia.
+  eexists. split; [reflexivity|].
+  split; [apply (R_reload s m _ _ HR Ho Ht)|].
+  split; [reflexivity|]. intros j Hj. cbn [offs tss]. auto.
 Qed.
